@@ -410,6 +410,38 @@ def cases(ctx):
                                      params_kind=ak, xsrc=('explicit' if xk != 'list' else 'attr'), kw=kwd, use_logfunc=log and not kwd))
     out.append(fixed(1, False, 'spectrum', ladder(1, False, 0), 'containers', pts_kind='npint', scalar=True))
     out.append(fixed(1, True, 'array', ladder(1, True, 0), 'containers', pts_kind='npint', scalar=True, kw=True, use_logfunc=True))
+    # repeated calls of ONE wrapped function (an optimiser calls it thousands of times): call number 1, 2, 3 with the same
+    # arguments, each producing entries far below / far above / near the finest-grid value; every call is judged on its own
+    rng2 = random.Random(ctx.seed + 707)            # own generator: the draws of the blocks above / below are unchanged
+    for k in range(2, 7):
+        for log in (False, True):
+            fm = [10, 2, 3, 10, 1][k - 2] if not log else [10, 10, 2, 3, 10][k - 2]
+            for call_no in (1, 2, 3):
+                c = fixed(k, log, 'spectrum' if (k + log) % 2 else 'array', [['1']] * 4, 'fallback-repeat', fm=fm, style='inv', fm_default=(fm == 10 and k % 2 == 0),
+                          use_logfunc=(log and fm == 10 and k != 2), xsrc=('explicit' if k % 3 == 0 else 'attr'), call_no=call_no)
+                xmin = min(float(Fraction(v)) for v in c['xs'])
+                c['coef'] = _fallback_coefs(rng2, 4, k, log, xmin, fm, kinds=['far_low', 'far_high', 'near', 'near_far'])
+                out.append(c)
+    # the documented type of the explicit x list is list[int]: integer x values of magnitude 1e3 .. 1e6 as Python ints (and, where
+    # no product of k - 1 of them reaches 2**63, as a numpy int64 array); the model is a polynomial in x / X with O(1) coefficients
+    int_sets = [('pyint', 10 ** 6, lambda k: [int(round(1000.0 * 1000.0 ** (j / max(1, k - 1)))) + j for j in range(k)]),
+                ('pyint', 10 ** 6, lambda k: [100003, 130001, 170011, 220007, 290003, 370001][:k]),
+                ('pyint', 10 ** 6, lambda k: [400009, 520001, 640007, 760003, 880001, 1000003][:k]),
+                ('pyint', 10 ** 4, lambda k: [1009, 1511, 2003, 2503, 3001, 3499][:k]),
+                ('int64', 10 ** 4, lambda k: [1009, 1511, 2003, 2503, 3001, 3499][:k])]
+    for k in range(2, 7):
+        for sno, (xk, X, mk) in enumerate(int_sets):
+            for log in (False, True):
+                xi = sorted(mk(k), reverse=True)                      # more grid points = smaller x
+                coef = []
+                for e in range(k + 1):                                # entry e has exact degree e (degree k: Formula only)
+                    a = [Fraction(e - 2, 2) if log else Fraction(6 + e)] + [Fraction((-1) ** (j + e) * (j + 2), 4 * (j + 1)) for j in range(1, e + 1)]
+                    coef.append([rat(v / Fraction(X) ** j) for j, v in enumerate(a)])
+                order = None if (k + sno) % 2 else rng2.sample(range(k), k)
+                c = fixed(k, log, 'array' if (k + sno + log) % 2 else 'spectrum', coef, 'integer-x', xsrc='explicit', x_kind=xk,
+                          use_logfunc=log and sno % 2 == 0, kw=(sno == 1))
+                c['xs'] = rats([float(v) for v in xi])
+                out.append(reorder(c, order) if order is not None else c)
     # signs: a model that is negative everywhere (ratio to the finest grid positive), value exactly 0 at x = 0, mixed signs
     for k in range(2, 7):
         neg = [[rat(-Fraction(5 + e, 2))] + [rat(Fraction((-1) ** j, 4 * (j + 1))) for j in range(1, min(e, k - 1) + 1)] for e in range(3)]
@@ -453,7 +485,7 @@ def nontrivial(r):
         return None
     order = 'inc' if i['pts'] == sorted(i['pts']) else 'dec' if i['pts'] == sorted(i['pts'], reverse=True) else 'mixed'
     return (i['log'], k, i['kind'], i['xsrc'], i['kw'], order, i['tag'], i['fm'], tuple(i['sh']), i.get('pts_kind'), i.get('x_kind'), i.get('res_layout'),
-            i.get('use_logfunc'))
+            i.get('use_logfunc'), i.get('call_no'))
 
 
 def mutate(rec):
